@@ -43,7 +43,7 @@ CHECKS = {
  "C07": dict(
    technique="property-based testing: law checking (reflexive/antisymmetric/transitive/eq-cmp-hash agreement) over generated value triples biased to same-value-different-representation twins; metamorphic agreement of template operators; algebraic laws of sort/unique/groupby/batch/slice/reverse/min/max over generated inputs with hidden identities; both map implementations",
    level="exploration",
-   text="Generated triples and pairs of values of every kind and representation are checked against the order/equality/hash laws at the Value API and through template operators (==, <, in, dict lookup, unique, is eq); collection filters are checked against their defining laws (ordered + permutation + stable, partition, concatenation, involution, bounds) on inputs of up to 71 items (thorough 159; long enough for every algorithm of the standard sort) with hidden ids. Run for the BTreeMap build and, as a sub-process, the preserve_order (IndexMap) build.",
+   text="Generated triples and pairs of values of every kind and representation are checked against the order/equality/hash laws at the Value API and through template operators (==, <, in, dict lookup, unique, is eq); collection filters are checked against their defining laws (ordered + permutation + stable, partition, concatenation, involution, bounds) on inputs of up to 71 items (thorough 159; long enough for every algorithm of the standard sort) with hidden ids. Run for the BTreeMap build and, as a sub-process, the preserve_order (IndexMap) build. Sort keys include ASCII strings that differ only in punctuation adjacent to the letters in the code table.",
    note="Sortedness of filter output is judged with Value::cmp (the order itself is judged by the laws part). Case-insensitive order of non-ASCII strings is not asserted (differs with the unicode feature). One open known finding (map insertion order under preserve_order).",
    design="3/C07"),
  "C08": dict(
@@ -115,7 +115,7 @@ CHECKS = {
  "C19": dict(
    technique="fault injection with property-based program generation: for every generated program the output sink is made to fail at every write position (every k up to the number of writes) with several error kinds, short writes and interrupted writes; prefix/no-write-after-error/error-source oracle against the payload sequence of a never-failing sink",
    level="fault_enumeration",
-   text="Each generated program (named .txt/.html/.json/.yaml: no, HTML and JSON auto-escaping; text, numeric fast paths, escaping, macros, call blocks, includes, captures, recursive loops, inheritance, self-failing programs) is first rendered into a recording sink; then the sink fails at the k-th write for every k (sampled beyond 96 writes) and the bytes received, the absence of later writes, the returned ErrorKind::WriteFailure and its io::Error source are checked; render_captured_to and State::render_block_to_write.",
+   text="Each generated program (named .txt/.html/.json/.yaml: no, HTML and JSON auto-escaping; text, numeric fast paths, escaping, macros, call blocks, includes, captures, recursive loops, inheritance, self-failing programs) is first rendered into a recording sink; then the sink fails at the k-th write for every k (sampled beyond 96 writes) and the bytes received, the absence of later writes, the returned ErrorKind::WriteFailure and its io::Error source are checked; render_captured_to and State::render_block_to_write. Printed containers hold strings that need escape sequences, so that sink failures fall between the pieces of a quoted literal.",
    note="Assumes the write sequence of a render is deterministic (verified per case against render()).",
    design="3/C19"),
  "C20": dict(
